@@ -209,3 +209,31 @@ Fixpoint inst (s : store) (e : xexpr) : expr val :=
   | XUn o e1 => Un o (inst s e1)
   | XBin o l r => Bin o (inst s l) (inst s r)
   end.
+
+(* ---- string functions as units (their results are TEMPORARY strings, like the result of +):
+   8 CHR$(n)  9 STR$(n)  10 LEFT$(s, i)  11 RIGHT$(s, i)  12 MID$(s, i, j);  i, j are integer constants *)
+Fixpoint digits_fuel (fuel : nat) (x : Z) (acc : list Z) : list Z :=
+  match fuel with
+  | O => acc
+  | S f => let acc' := (48 + x mod 10) :: acc in
+           if x / 10 =? 0 then acc' else digits_fuel f (x / 10) acc'
+  end.
+Definition str_of_int (x : Z) : list Z :=
+  (if x <? 0 then 45 else 32) :: digits_fuel 20 (Z.abs x) [].
+Definition v_sfn (f i j : Z) (a : val) : res val :=
+  match a with
+  | VNum _ x =>
+      if f =? 8 then (if (0 <=? x) && (x <=? 255) then Ok (VStr [x]) else out_of_domain)
+      else if f =? 9 then (if Z.abs x <=? 999999 then Ok (VStr (str_of_int x)) else out_of_domain)
+      else Err tmm
+  | VStr s =>
+      if (f =? 8) || (f =? 9) then Err tmm
+      else if (i <? 0) || (j <? 0) || (255 <? i) || (255 <? j) then out_of_domain
+      else if f =? 10 then Ok (VStr (firstn (Z.to_nat i) s))
+      else if f =? 11 then Ok (VStr (skipn (length s - Z.to_nat i) s))
+      else if f =? 12 then (if i =? 0 then out_of_domain
+                            else Ok (VStr (firstn (Z.to_nat j) (skipn (Z.to_nat (i - 1)) s))))
+      else out_of_domain
+  end.
+Definition vG (f i j : Z) (arg : expr val) : expr val :=
+  Leaf (bind (eval val v_unop (v_binop false) arg) (v_sfn f i j)).
